@@ -311,34 +311,9 @@ def after_failures(acc, out):
     """Operations that FAIL part-way through a definition (payload cut inside the last group member; a value
     the second group member cannot take), for every definition with a group, all in ONE process; afterwards
     every declared definition must still be usable (nominal build + parse, one attribute per named field)."""
-    from pyubx2 import UBXMessage
+    from mc import failops
     ents = [e for e in C.entries() if e.routed and not C.invalid_types(e.pdict)]
-    nfail = 0
-    for e in ents:
-        groups = [(k, v) for k, v in e.pdict.items() if isinstance(v, tuple)]
-        if not groups:
-            continue
-        pl = C.build_payload(e, lambda x: 2, 2, lambda i: (3 * i + 1) % 200)
-        if pl:
-            for cut in range(1, min(17, len(pl))):
-                for pbf in (1, 0):
-                    try:
-                        UBXReader.parse(ref.frame(e.clsid[0], e.clsid[1], pl[:-cut]), msgmode=e.mode, parsebitfield=pbf)
-                    except Exception:  # noqa: BLE001
-                        nfail += 1
-        if K.route_kwargs(e) is None:
-            continue
-        for gname, (cnt, members) in groups:
-            if not isinstance(cnt, str) or cnt == "None":
-                continue
-            for mname, mtyp in members.items():
-                if isinstance(mtyp, (tuple, dict)):
-                    continue
-                for bad in (object(), -1, "x" * 3):
-                    try:
-                        UBXMessage(e.clsid[0:1], e.clsid[1:2], e.mode, **{cnt: 2, mname + "_02": bad})
-                    except Exception:  # noqa: BLE001
-                        nfail += 1
+    nfail = failops.run_failing_operations()
     acc.extra["failing_operations"] += nfail
     for e in ents:
         sub = []
